@@ -345,7 +345,11 @@ pdgstrf_MemInit(int_t n, int_t annz, superlumt_options_t *superlumt_options,
 		SUPERLU_FREE(lsub);
 		SUPERLU_FREE(usub);
 	    } else {
-		duser_free(nzumax*dword+(nzlmax+nzumax)*iword, HEAD);
+		/* Give back only what was actually obtained: a failed
+		   request did not advance the stack. */
+		if ( usub ) duser_free(nzumax*iword, HEAD);
+		if ( lsub ) duser_free(nzlmax*iword, HEAD);
+		if ( ucol ) duser_free(nzumax*dword, HEAD);
 	    }
 	    nzumax /= 2;    /* reduce request */
 	    nzlmax /= 2;
